@@ -10,6 +10,11 @@ Executable specification of C01 / C02, read off the English statements; no tree,
 * the chain of a logger is its own attachments followed, when it is additive, by its parent's chain;
   the root's chain is the root's attachments;
 * a record is delivered along the chain of its effective logger iff that logger's threshold admits it.
+
+The two words taken from the model files — `comps` (Tree.lean: leftmost split at "::") and `admits` (Base/Level.lean:
+level ≤ threshold) — are pinned by C01_comps_char / C01_comps_unique / C01_admits_iff; `effectiveAt`, `parent`, `chain`
+are characterised declaratively by C01_effective_longest / C01_effective_unique / C01_parent_longest_proper /
+C01_chain_is_visited / C01_visited_shape / C01_chain_fuel.
 -/
 namespace Log4rs.Routing.Tree
 open Log4rs
@@ -40,6 +45,31 @@ def chain (cfg : Config) : Nat → Option LoggerCfg → List Name
   | _, none => cfg.rootAppenders
   | 0, some l => l.appenders
   | n + 1, some l => l.appenders ++ (if l.additive then chain cfg n (parent cfg l) else [])
+
+/-- the loggers a record's delivery walks through, nearest first; `none` = the root. Declarative reading of
+"directly or through an unbroken chain of additive ancestors ending at the root" (C01_chain_is_visited,
+C01_visited_shape tie it to `chain`). -/
+def visited (cfg : Config) : Nat → Option LoggerCfg → List (Option LoggerCfg)
+  | _, none => [none]
+  | 0, some l => [some l]
+  | n + 1, some l => some l :: (if l.additive then visited cfg n (parent cfg l) else [])
+
+/-- the attachments of a logger (`none` = root) -/
+def attached (cfg : Config) : Option LoggerCfg → List Name
+  | some l => l.appenders
+  | none => cfg.rootAppenders
+
+/-- same loggers, each with its attachment list possibly reordered -/
+inductive AttachPermL : List LoggerCfg → List LoggerCfg → Prop
+  | nil : AttachPermL [] []
+  | cons {l l' : LoggerCfg} {ls ls' : List LoggerCfg} :
+      l.name = l'.name → l.level = l'.level → l.additive = l'.additive → l.appenders.Perm l'.appenders →
+      AttachPermL ls ls' → AttachPermL (l :: ls) (l' :: ls')
+
+/-- two configurations that differ only in the order of attachments inside the root and inside loggers -/
+def AttachPerm (cfg cfg' : Config) : Prop :=
+  cfg.appenders = cfg'.appenders ∧ cfg.rootLevel = cfg'.rootLevel ∧
+  cfg.rootAppenders.Perm cfg'.rootAppenders ∧ AttachPermL cfg.loggers cfg'.loggers
 
 def specLevel (cfg : Config) (target : Name) : Nat :=
   match effective cfg target with
